@@ -45,9 +45,15 @@ def cases(desc):
     for j in range(desc["n_random"]):
         if j % n == i:
             r = rand.rng(seed, "c10r", j)
-            yield "random", rand.rand_model(r, r.randint(2, 12), n_ctcs=r.choice([0, 1, 2, 3]), ctc_depth=3,
-                                            group_kinds=("alternative", "or", "mutex", "cardinality"),
-                                            profile=r.choice(["mixed", "deep", "wide"]))
+            spec = rand.rand_model(r, r.randint(2, 12), n_ctcs=r.choice([0, 1, 2, 3]), ctc_depth=3,
+                                   group_kinds=("alternative", "or", "mutex", "cardinality"),
+                                   profile=r.choice(["mixed", "deep", "wide"]))
+            if j % 3 == 0 and spec.get("ctcs"):
+                # plain identifiers that contain operator words (SENSOR, BRAND, ANDROID...)
+                from ..gen import inject
+                yield "random+opword-names", inject.rename_to_opwords(spec, r)
+            else:
+                yield "random", spec
 
 
 def interpret(which, text, names):
@@ -212,10 +218,66 @@ def history_inplace(acc, spec, seed, j):
             acc.held(cls, key)
 
 
+def run_wide_sampled(acc, spec, seed, source):
+    """Groups too wide for 2^n: the .exp export is evaluated by the independent interpreter on structured samples
+    (parent with exactly c children for every c, a few subsets each; parent unselected; random) and compared with
+    the reference validity of each selection."""
+    names = S.feature_names(spec)
+    r = rand.rng(seed, "c10-wide-sampled", S.digest(spec))
+    idx = refsem.Idx(spec)
+    kids = [c["name"] for c in spec["root"]["rels"][0]["children"]]
+    rootb = idx.bit[spec["root"]["name"]]
+    masks = []
+    for c in range(len(kids) + 1):
+        for _ in range(4):
+            m = rootb
+            for k in r.sample(kids, c):
+                m |= idx.bit[k]
+            masks.append(m)
+            for b in (x for x in idx.names if x not in kids and x != spec["root"]["name"]):
+                if r.random() < 0.5:
+                    m |= idx.bit[b]
+            masks.append(m)
+    masks += [0, idx.bit[kids[0]], idx.bit[kids[0]] | idx.bit[kids[1]]] + [r.getrandbits(idx.n) for _ in range(20)]
+    cls = f"exp:{source}"
+    key = S.digest(["exp-wide-sampled", spec])
+    acc.programs += 1
+    try:
+        text = export("exp", spec)
+        got = exp.truth_on(text, idx.names, masks)
+    except exp.ExpError as e:
+        acc.fail(cls, "export-parseable", "exp", [], "unparseable", str(e)[:200], {"which": "exp", "source": source}, key)
+        return
+    except Exception as e:  # noqa: BLE001
+        acc.fail(cls, "no-exception", "exp", [], f"raises:{type(e).__name__}", str(e)[:200], {"which": "exp", "source": source}, key)
+        return
+    acc.disagreements_checked += len(masks)
+    ctcs = [c["ast"] for c in spec.get("ctcs", [])]
+    for m, g in zip(masks, got):
+        want = refsem.tree_ok(idx, m) and all(refsem._ctc_eval(a, idx, m) for a in ctcs)
+        if g != want:
+            nsel = sum(1 for k in kids if m & idx.bit[k])
+            acc.fail(cls, "same-configurations", "exp", [], "more-configurations" if g else "fewer-configurations",
+                     f"selection with {nsel} of {len(kids)} group members, parent {'selected' if m & rootb else 'not selected'}: "
+                     f"model says {want}, export says {g}", {"which": "exp", "source": source, "spec": spec, "wide": True}, key)
+            return
+    acc.held(cls, key)
+
+
 def run_shard(desc, acc):
+    i, n, seed = desc["shard"], desc["nshards"], desc["seed"]
+    # one group per run that is too wide for the 2^n comparison (the writer enumerates every admissible selection
+    # of a cardinality group: 17 members are about what it can write)
+    for wi, (k, mn, mx) in enumerate(((17, 7, 9), (16, 2, 15), (17, 1, 16), (18, 8, 9))):
+        if wi % n == i and (desc["nmax"] > 5 or wi in (0, 1 + seed % 3)):
+            kids = [{"name": f"G{j}", "rels": []} for j in range(k)]
+            spec = {"root": {"name": "W", "rels": [{"min": mn, "max": mx, "children": kids},
+                                                   {"min": 0, "max": 1, "children": [{"name": "Side", "rels": []}]}]},
+                    "ctcs": [{"name": "c", "ast": ["IMPLIES", "G0", "Side"]}]}
+            run_wide_sampled(acc, spec, seed, f"wide-group-sampled-{k}[{mn}..{mx}]")
     for j, (source, spec) in enumerate(cases(desc)):
         run_case(acc, source, spec)
-        if source == "random" or j % 40 == 0:
+        if source.startswith("random") or j % 40 == 0:
             history_inplace(acc, spec, desc["seed"], j)
         v = structural(spec)
         if v:
@@ -278,4 +340,7 @@ def run_shard(desc, acc):
 
 
 def replay(payload, acc):
+    if payload.get("wide"):
+        run_wide_sampled(acc, payload["spec"], 0, payload["source"])
+        return
     run_case(acc, payload["source"], payload["spec"])
